@@ -656,8 +656,15 @@ impl World {
 
     /// Random Tool call data (state-changing mix).
     pub fn tool_calldata(&mut self) -> Vec<u8> {
-        let w = [12u64, 3, 6, 4, 3, 2, 2, 2, 2, 1, 1, 2, 3];
+        let w = [12u64, 3, 6, 4, 3, 2, 2, 2, 2, 1, 1, 2, 3, 2];
         match self.rng.weighted(&w) {
+            13 => {
+                // a Bitcoin helper that needs the parents of a transaction's inputs (from the node)
+                let chain = crate::fakebtc::chain();
+                let t = &chain.txs[*self.rng.pick(&[2usize, 2, 3, 7])];
+                let (pc, input) = if self.rng.chance(2, 3) { (crate::pre::PC_TXDETAILS, crate::pre::get_tx_details(&t.txid_b32)) } else { (crate::pre::PC_LASTSAT, crate::pre::get_last_sat_location(&t.txid_b32, 0, 5)) };
+                asm::tool_call(if self.rng.chance(1, 2) { asm::OP_CALL } else { asm::OP_STATIC }, &[asm::word_u64(pc)], &input)
+            }
             0 => {
                 // sstore: unique value, same value again, or zero
                 let slot = self.slot();
